@@ -649,7 +649,15 @@ def check_c09(c, w, rec, app, ws, errors, end, P):
         c.fail('C09: exception escaped the event iterator: %r (events %s, faults %s)' % (rec.exc, names, inj),
                sig='C09: exception escaped the event iterator')
     if rec.budget is not None:
-        c.fail('C09: iterator keeps waiting after the transport failed (%s; events %s)' % (rec.budget, names[:10]))
+        if w.default_script.end == 'silence':
+            # a peer that stays silent (no EOF): waiting is the specified behaviour unless a write failed while a closing
+            # handshake was under way with close_timeout armed -- then the timeout has to end the iteration
+            close_started = any(x['action'] in ('close', 'close_default') for x in app.calls) or 'closing' in names
+            if not (inj and close_started and P.get('connect', {}).get('close_timeout')):
+                cls.add('idle-on-silent-peer')
+                return cls
+        c.fail('C09: iterator keeps waiting after the transport failed (%s; events %s; faults %s)' % (rec.budget, names[:10], inj),
+               sig='C09: iterator keeps waiting after the transport failed')
     if getattr(rec, 'abandoned', False):
         return cls
     if not rec.stopped or not names or names[-1] not in ('connect_fail', 'disconnected'):
